@@ -112,9 +112,43 @@ def extract(src: str) -> dict:
     # --- _create_identifier -------------------------------------------------------------------------
     f = _find(tree.body, "RequestCache", "_create_identifier")
     body = _strip_doc(f.body)
-    if len(body) != 1 or not isinstance(body[0], ast.Return) or not isinstance(body[0].value, ast.JoinedStr):
-        _fail("_create_identifier is not a single f-string return")
-    parts = body[0].value.values
+    if len(body) != 1 or not isinstance(body[0], ast.Return):
+        _fail("_create_identifier is not a single return")
+    val = body[0].value
+    parts = None
+    if isinstance(val, ast.JoinedStr):
+        parts = val.values
+    elif isinstance(val, ast.BinOp) and isinstance(val.op, ast.Mod) and isinstance(val.left, ast.Constant) \
+            and isinstance(val.left.value, str) and isinstance(val.right, ast.Tuple) \
+            and all(isinstance(e, ast.Name) for e in val.right.elts):
+        # "%s<sep>%s" % (prefix, number)   (also %d for the number)
+        pieces = val.left.value.replace("%d", "%s").split("%s")
+        if len(pieces) == len(val.right.elts) + 1:
+            parts = []
+            for i, lit in enumerate(pieces):
+                if lit:
+                    parts.append(ast.Constant(lit))
+                if i < len(val.right.elts):
+                    parts.append(ast.FormattedValue(value=val.right.elts[i], conversion=-1, format_spec=None))
+    elif isinstance(val, ast.BinOp) and isinstance(val.op, ast.Add):
+        # prefix + "<sep>" + str(number)
+        flat = []
+
+        def flatten(n):
+            if isinstance(n, ast.BinOp) and isinstance(n.op, ast.Add):
+                flatten(n.left)
+                flatten(n.right)
+            else:
+                flat.append(n)
+        flatten(val)
+        parts = []
+        for n in flat:
+            if isinstance(n, ast.Call) and _call_name(n.func) == "str" and len(n.args) == 1:
+                n = n.args[0]
+            parts.append(ast.FormattedValue(value=n, conversion=-1, format_spec=None)
+                         if isinstance(n, ast.Name) else n)
+    if parts is None:
+        _fail("_create_identifier: unsupported way of building the identifier string")
     shape = []
     for p in parts:
         if isinstance(p, ast.Constant):
@@ -171,8 +205,19 @@ def _call_name(node):
 
 
 def _is_logging(st):
-    return isinstance(st, ast.Expr) and isinstance(st.value, ast.Call) and \
-        (_call_name(st.value.func) or "").startswith("self._logger.")
+    """a self._logger.*(…) call whose arguments only read values (a side effect hidden in an argument is not skipped)"""
+    if not (isinstance(st, ast.Expr) and isinstance(st.value, ast.Call)
+            and (_call_name(st.value.func) or "").startswith("self._logger.")):
+        return False
+    args = list(st.value.args) + [k.value for k in st.value.keywords]
+    for a in args:
+        for sub in ast.walk(a):
+            if isinstance(sub, ast.Call) and _call_name(sub.func) not in ("str", "len", "repr", "type", "format", "join",
+                                                                             "\"\".join", "traceback.format_exc"):
+                return False
+            if isinstance(sub, (ast.Await, ast.NamedExpr, ast.Yield, ast.YieldFrom)):
+                return False
+    return True
 
 
 TABLE_ATTR = ["_identifiers"]       # inferred from `has`: the attribute the identifier is looked up in
@@ -236,6 +281,9 @@ class _Seq:
         self.task_vars = set()       # locals holding the list returned by cancel_all_pending_tasks()
         self.waiter_vars = set()
         self.pure_locals = set()
+        self.abort_ops = []
+        self.local_defs = {}
+        self.cond_defs = {}
         self.params = [a.arg for a in fn.args.args]
 
     def fail(self, what, node=None):
@@ -295,6 +343,17 @@ class _Seq:
                     self.fail("unsupported context manager", st)
             self.walk(st.body)
             return
+        if isinstance(st, ast.Try):
+            if st.handlers or st.orelse:
+                self.fail("try with except/else clauses", st)
+            n0 = len(self.ops)
+            self.walk(st.body)
+            n1 = len(self.ops)
+            self.walk(st.finalbody)
+            if "callOnTimeout" in self.ops[n0:n1]:
+                # what still runs when cache.on_timeout() raises: the finally blocks around the call, inner first
+                self.abort_ops = self.abort_ops + self.ops[n1:]
+            return
         handler = getattr(self, "stmt_" + self.method.lstrip("_"))
         if handler(st):
             return
@@ -305,11 +364,14 @@ class _Seq:
                 return
             if _is_pure_expr(st.value):
                 self.pure_locals.add(st.targets[0].id)
+                self.local_defs.setdefault(st.targets[0].id, []).append(st.value)
                 return
         if isinstance(st, ast.If) and _is_pure_expr(st.test) and not st.orelse and all(
                 isinstance(b, ast.Assign) and len(b.targets) == 1 and isinstance(b.targets[0], ast.Name)
                 and b.targets[0].id in self.pure_locals and _is_pure_expr(b.value) for b in st.body):
-            return                                              # e.g. the passthrough override of the local delay
+            for b in st.body:                                   # e.g. the passthrough override of the local delay
+                self.cond_defs.setdefault(b.targets[0].id, []).append((st.test, b.value))
+            return
         self.fail("statement outside the translator's subset", st)
 
     # --- add ---------------------------------------------------------------------------------------
@@ -332,6 +394,16 @@ class _Seq:
                 self.ops.append("dupGuard")
                 return True
             self.fail("duplicate guard does not `return None`", st)
+        if isinstance(st, ast.If) and isinstance(st.test, ast.Call) and _call_name(st.test.func) == "self.has" and not st.orelse:
+            a = st.test.args
+            cache = self.params[1]
+            body = [b for b in st.body if not _is_logging(b)]
+            if len(a) == 2 and [ast.unparse(x) for x in a] == [cache + ".prefix", cache + ".number"] and len(body) == 1 \
+                    and isinstance(body[0], ast.Return) and (body[0].value is None or (
+                        isinstance(body[0].value, ast.Constant) and body[0].value.value is None)):
+                self.ops.append("dupGuard")
+                return True
+            self.fail("duplicate guard via has() is not `if self.has(cache.prefix, cache.number): return None`", st)
         if isinstance(st, ast.Expr) and isinstance(st.value, ast.Call) and _call_name(st.value.func) == "self.register_task":
             c = st.value
             args = list(c.args)
@@ -362,7 +434,15 @@ class _Seq:
             self.ops.append("resolveWaiter")
             return True
         if isinstance(st, ast.If) and any(isinstance(n, ast.Name) and n.id in self.waiter_vars for n in ast.walk(st.test)):
-            return True                                         # `if waiter is not None and not waiter.done(): set_result`
+            # `if waiter is not None and not waiter.done(): waiter.set_result(cache)` — nothing else may hide in there
+            b = st.body
+            if not st.orelse and len(b) == 1 and isinstance(b[0], ast.Expr) and isinstance(b[0].value, ast.Call) \
+                    and (_call_name(b[0].value.func) or "").split(".")[0] in self.waiter_vars \
+                    and (_call_name(b[0].value.func) or "").endswith(".set_result") \
+                    and all(_call_name(c.func) in {w + ".done" for w in self.waiter_vars}
+                            for c in ast.walk(st.test) if isinstance(c, ast.Call)):
+                return True
+            self.fail("waiter hand-over does more than waiter.set_result(cache)", st)
         if isinstance(st, ast.Return) and isinstance(st.value, ast.Name) and st.value.id == self.params[1]:
             self.ops.append("returnAdded")
             return True
@@ -386,6 +466,17 @@ class _Seq:
                 self.ops.append("popIdent")
                 return True
             self.fail("identifier is not popped with KeyError semantics", st)
+        if isinstance(st, ast.Assign) and len(st.targets) == 1 and isinstance(st.targets[0], ast.Name) \
+                and isinstance(st.value, ast.Subscript) and self.is_identifiers(st.value.value) and self.is_ident(st.value.slice):
+            self.looked_up = st.targets[0].id                   # `cache = d[k]` (KeyError) … must be followed by `del d[k]`
+            return True
+        if isinstance(st, ast.Delete) and len(st.targets) == 1 and isinstance(st.targets[0], ast.Subscript) \
+                and self.is_identifiers(st.targets[0].value) and self.is_ident(st.targets[0].slice) \
+                and getattr(self, "looked_up", None):
+            self.cache_vars.add(self.looked_up)
+            self.looked_up = None
+            self.ops.append("popIdent")
+            return True
         if isinstance(st, ast.Expr) and isinstance(st.value, ast.Call) \
                 and _call_name(st.value.func) == "self.cancel_pending_task":
             if len(st.value.args) == 1 and self.is_cache(st.value.args[0]):
@@ -488,7 +579,10 @@ class _Seq:
                 and isinstance(st.value, ast.Constant) and st.value.value is True:
             self.ops.append("setShutdown")
             return True
-        if isinstance(st, ast.For) and isinstance(st.iter, ast.Call) and _call_name(st.iter.func) == ("self." + TABLE_ATTR[0] + ".values") \
+        it = st.iter if isinstance(st, ast.For) else None
+        if isinstance(it, ast.Call) and _call_name(it.func) in ("list", "tuple") and len(it.args) == 1:
+            it = it.args[0]                                     # a snapshot of the values is the same iteration
+        if isinstance(st, ast.For) and isinstance(it, ast.Call) and _call_name(it.func) == ("self." + TABLE_ATTR[0] + ".values") \
                 and isinstance(st.target, ast.Name) and not st.orelse:
             body = [b for b in st.body if not _is_logging(b)]
             if len(body) == 1 and self.cancel_futures_loop(body[0], st.target.id):
@@ -503,6 +597,70 @@ class _Seq:
                 self.ops.append("awaitTasks")
                 return True
         return False
+
+
+CANON_COND = ("self._timeout_override is not None and (self._timeout_filters is None or "
+              "any((issubclass(cache.__class__, f) for f in self._timeout_filters)))")
+
+
+def _canon(expr, cache_name):
+    """normal form of the passthrough condition: parameter and comprehension variable renamed, equivalent spellings of
+    the class test unified"""
+    e = ast.parse(ast.unparse(expr), mode="eval").body
+    gens = [g.target.id for n in ast.walk(e) if isinstance(n, (ast.GeneratorExp, ast.ListComp)) for g in n.generators
+            if isinstance(g.target, ast.Name)]
+    ren = {cache_name: "cache"}
+    if gens:
+        ren[gens[0]] = "f"
+    for n in ast.walk(e):
+        if isinstance(n, ast.Name) and n.id in ren:
+            n.id = ren[n.id]
+    txt = ast.unparse(e)
+    txt = txt.replace("type(cache)", "cache.__class__").replace("isinstance(cache, f)", "issubclass(cache.__class__, f)")
+    txt = txt.replace("any([", "any((").replace("])", "))")
+    return txt
+
+
+def check_delay_rule(sq, cls_node):
+    """the delay handed to register_task must be: cache.timeout_delay, replaced by self._timeout_override exactly when
+    CANON_COND holds (inline, or in a helper method that returns one or the other)"""
+    cache = sq.params[1]
+    name = sq.delay_local
+    seen = set()
+    while name not in seen:
+        seen.add(name)
+        d = sq.local_defs.get(name, [])
+        if len(d) == 1 and isinstance(d[0], ast.Name) and d[0].id in sq.local_defs and name not in sq.cond_defs:
+            name = d[0].id                                      # plain alias
+            continue
+        break
+    defs, conds = sq.local_defs.get(name, []), sq.cond_defs.get(name, [])
+    if len(defs) != 1:
+        _fail(f"add: the local delay `{name}` is assigned {len(defs)} times")
+    base = ast.unparse(defs[0])
+    if base == f"{cache}.timeout_delay":
+        if len(conds) != 1:
+            _fail("add: expected exactly one conditional override of the delay")
+        test, val = conds[0]
+        if ast.unparse(val) != "self._timeout_override":
+            _fail("add: the override value is not self._timeout_override")
+        if _canon(test, cache) != CANON_COND:
+            _fail("add: the passthrough condition differs from `override is not None and (filters is None or any("
+                  "issubclass(cache.__class__, f) for f in filters))`: " + _canon(test, cache)[:160])
+        return
+    c = defs[0]
+    if isinstance(c, ast.Call) and (_call_name(c.func) or "").startswith("self.") and not conds \
+            and [ast.unparse(a) for a in c.args] == [cache] and not c.keywords:
+        h = [f for f in cls_node.body if isinstance(f, ast.FunctionDef) and "self." + f.name == _call_name(c.func)]
+        if len(h) == 1:
+            hb = _strip_doc(h[0].body)
+            hp = h[0].args.args[1].arg
+            if len(hb) == 2 and isinstance(hb[0], ast.If) and not hb[0].orelse and len(hb[0].body) == 1 \
+                    and isinstance(hb[0].body[0], ast.Return) and isinstance(hb[1], ast.Return) \
+                    and ast.unparse(hb[0].body[0].value) == "self._timeout_override" \
+                    and ast.unparse(hb[1].value) == f"{hp}.timeout_delay" and _canon(hb[0].test, hp) == CANON_COND:
+                return
+    _fail("add: cannot recognise how the delay handed to register_task is computed: " + base[:120])
 
 
 PRIMS = ["assertDelay", "shutdownGate", "dupGuard", "registerTask", "storeIdent", "resolveWaiter", "returnAdded",
@@ -532,14 +690,49 @@ def extract_ops(src: str) -> dict:
         sq = _Seq(m, fn)
         sq.walk(fn.body)
         out[m] = sq.ops
+        if m == "add":
+            check_delay_rule(sq, _find(tree.body, "RequestCache"))
+        if m == "_on_timeout":
+            out["_on_timeout_abort"] = sq.abort_ops
     if out["_on_timeout"].count("callOnTimeout") != 1:
         _fail("_on_timeout does not call cache.on_timeout() exactly once")
     return out
 
 
+def extract_done_cb(src: str) -> bool:
+    """taskmanager.py, register_task.done_cb: does the callback forget the name only if it still maps to this future?"""
+    tree = ast.parse(src)
+    reg = _find(tree.body, "TaskManager", "register_task")
+    cbs = [n for n in ast.walk(reg) if isinstance(n, ast.FunctionDef) and n.name == "done_cb"]
+    if len(cbs) != 1:
+        _fail("register_task: expected exactly one nested done_cb")
+    cb = cbs[0]
+    fut = cb.args.args[0].arg
+
+    def is_pop(st):
+        return (isinstance(st, ast.Expr) and isinstance(st.value, ast.Call)
+                and _call_name(st.value.func) == "self._pending_tasks.pop" and st.value.args
+                and isinstance(st.value.args[0], ast.Name) and st.value.args[0].id == "name")
+    for st in _strip_doc(cb.body):
+        if is_pop(st):
+            return False
+        if isinstance(st, ast.If) and not st.orelse and len(st.body) == 1 and is_pop(st.body[0]):
+            t = st.test
+            if (isinstance(t, ast.Compare) and len(t.ops) == 1 and isinstance(t.ops[0], ast.Is)
+                    and isinstance(t.left, ast.Call) and _call_name(t.left.func) == "self._pending_tasks.get"
+                    and isinstance(t.left.args[0], ast.Name) and t.left.args[0].id == "name"
+                    and isinstance(t.comparators[0], ast.Name) and t.comparators[0].id == fut):
+                return True
+            _fail("done_cb: the guard of the name removal is not `self._pending_tasks.get(name…) is future`")
+        if isinstance(st, ast.Try):
+            break
+    _fail("done_cb does not remove the name from _pending_tasks before reading the result")
+
+
 def translate():
     src = (vlib.REPO / "ipv8" / "requestcache.py").read_text()
     c = extract(src)
+    c["doneCbGuarded"] = extract_done_cb((vlib.REPO / "ipv8" / "taskmanager.py").read_text())
     ops = extract_ops(src)
     c["ops"] = ops
 
@@ -565,6 +758,9 @@ def minDelayExclusiveMs : Nat := {c['minDelayExclusiveMs']}
 /-- separator of `_create_identifier`: f"{{prefix}}{sep}{{number}}" -/
 def identSeparator : String := "{sep}"
 
+/-- taskmanager.py `register_task.done_cb` forgets the name only if `_pending_tasks[name]` is still this future -/
+def doneCbGuarded : Bool := {"true" if c["doneCbGuarded"] else "false"}
+
 /-- primitive state operations the bodies of RequestCache.add / pop / _on_timeout / clear / shutdown are made of
     (their meaning is fixed in Ipv8/C10/Source.lean; logging, isinstance asserts and pure locals are not listed) -/
 inductive Prim
@@ -577,6 +773,8 @@ def addOps : List Prim := {lst("add")}
 def popOps : List Prim := {lst("pop")}
 /-- RequestCache._on_timeout, in source order -/
 def onTimeoutOps : List Prim := {lst("_on_timeout")}
+/-- what of RequestCache._on_timeout still runs when cache.on_timeout() raises (the `finally` blocks around the call) -/
+def onTimeoutAbortOps : List Prim := {lst("_on_timeout_abort")}
 /-- RequestCache.clear, in source order -/
 def clearOps : List Prim := {lst("clear")}
 /-- RequestCache.shutdown, in source order -/
